@@ -204,3 +204,47 @@ Theorem C14_source_BuildAuthURL_composed :
               (fun parsed => build_auth_url_from_document sign (rsp_cfg rs) parsed relay)).
 Proof. exact source_BuildAuthURL_composed. Qed.
 Print Assumptions C14_source_BuildAuthURL_composed.
+
+(* ---- url.Parse / URL.String MODELLED (Url.v; compared with net/url on every run by the case set `urlmodel`).
+   [url_parse : string -> res url] is url.Parse, [Url.url_string] is URL.String, [set_raw_query q U] is `U.RawQuery = q`;
+   [url_parse_split endpoint] is the argument the redirect model takes ([None] when url.Parse fails); [url_parse_gurl] is the
+   same parser as the [url_parse] argument of the translated source (GenRedirect.v). *)
+From V Require Import Url P_Url.
+
+(* An endpoint url.Parse rejects (control character, bad escape, bad port, ...): both flows return an error and no URL; so do
+   the translated exported functions of build_request.go run with the modelled parser. *)
+Theorem C14_unparsable_endpoint_is_an_error :
+  forall (sign : Redirect.hash_alg -> string -> option string) f cfg endpoint relay binding deflated e,
+  url_parse endpoint = Err e ->
+  build_url sign f cfg (url_parse_split endpoint) relay binding deflated = Err (EOther "url.Parse").
+Proof. exact unparsable_endpoint_is_an_error. Qed.
+Print Assumptions C14_unparsable_endpoint_is_an_error.
+
+Theorem C14_unparsable_endpoint_is_an_error_source :
+  forall (write_doc : node -> res string) fl_write fl_close (sign : Redirect.hash_alg -> string -> option string) sp relay doc
+         (built : res node),
+  (forall e, url_parse (rsp_sso_url sp) = Err e ->
+     G_BuildAuthURLFromDocument url_parse_gurl write_doc fl_write fl_close sign sp relay doc = PVal (Err (EOther "url.Parse")) /\
+     G_BuildAuthURLRedirect url_parse_gurl write_doc fl_write fl_close sign sp relay doc = PVal (Err (EOther "url.Parse")) /\
+     forall d, G_BuildAuthURL url_parse_gurl write_doc fl_write fl_close sign sp relay (res_some (Ok d))
+               = PVal (Err (EOther "url.Parse"))) /\
+  (forall e, url_parse (rsp_slo_url sp) = Err e ->
+     G_BuildLogoutURLRedirect url_parse_gurl write_doc fl_write fl_close sign sp relay doc = PVal (Err (EOther "url.Parse"))).
+Proof. exact unparsable_endpoint_source. Qed.
+Print Assumptions C14_unparsable_endpoint_is_an_error_source.
+
+(* C14_existing_params_kept with the parser modelled: for every endpoint url.Parse accepts, the URL returned is String() of
+   the parsed endpoint after `RawQuery = rawq`, and every parameter the endpoint had (as URL.Query() reads its RawQuery) keeps
+   all its values, query-escaped, in order, in front of anything the flow adds; nothing is added to other parameters. *)
+Theorem C14_existing_params_kept_modelled :
+  forall (sign : Redirect.hash_alg -> string -> option string) f cfg endpoint U relay binding deflated url signed,
+  url_parse endpoint = Ok U ->
+  build_url sign f cfg (url_parse_split endpoint) relay binding deflated = Ok (url, signed) ->
+  exists rawq,
+    url = Url.url_string (set_raw_query rawq U) /\
+    forall k, exists extra,
+      url_values (query_escape k) rawq
+      = (map query_escape (values_lookup k (parse_query (u_raw_query U))) ++ extra)%list /\
+      (~ In k saml_params -> extra = []).
+Proof. exact existing_params_kept_modelled. Qed.
+Print Assumptions C14_existing_params_kept_modelled.
